@@ -553,3 +553,39 @@ class screen_clear:
         yield "partial-display-bookkeeping-untouched", both(opt_eq(s._rows_used, old._rows_used), s._cy == old._cy, opt_eq(s.maxrow, old.maxrow),
                                                             s._setup_G1_done == old._setup_G1_done, s._resized == old._resized,
                                                             opt_eq(s._screen_buf_canvas, old._screen_buf_canvas))
+
+
+# =================================================================================================================
+# Screen._on_update_palette_entry (C17: "resolves each attribute name through the palette entry for the active colour
+# depth"): of the five AttrSpecs registered for a name — in the order BaseScreen.register_palette_entry emits them:
+# 16-colour, mono, 88, 256, 2**24 — the one for `self.colors` is recorded and converted; nothing else is touched.
+
+PAL_SCREEN = Obj(_rdb.Screen, dict(colors=Atom(1, 16, 88, 256, 2**24), _pal_attrspec=Custom(lambda st, h: Q.DRef({}), "dict"), _pal_escape=Custom(lambda st, h: Q.DRef({}), "dict"),
+                                   term=Atom("fbterm", "xterm"), fg_bright_is_bold=Bool, bg_bright_is_blink=Bool))
+ENTRY_ORDER = (16, 1, 88, 256, 2**24)  # spec: urwid/display/common.py BaseScreen.register_palette_entry's signal arguments
+
+
+@contract(RD + "Screen._attrspec_to_escape", property=(), alias="token", assumed=True,
+          notes="call-site stand-in used by _on_update_palette_entry's contract only: the result is a token naming the argument, so that the caller's postcondition can say WHICH spec was converted; the conversion itself is verified by the #sgr contract")
+class a2e_token:
+    self_shape = PAL_SCREEN
+    params = dict(a=SPEC)
+    pure_spec = staticmethod(lambda old, a: ("escape-of", a.a))
+
+
+@contract(RD + "Screen._on_update_palette_entry", property=("C17", "C04"), replayable=False)
+class on_update_palette_entry:
+    self_shape = PAL_SCREEN
+    params = dict(name=Union(Const("body"), Const(None)), attrspecs=Tup(SPEC, SPEC, SPEC, SPEC, SPEC))
+    raises = ()
+    modifies = ("_pal_attrspec", "_pal_escape")
+    contract_overrides = {RD + "Screen._attrspec_to_escape": a2e_token}
+
+    def ensures(old, s, a, result):
+        for k, depth in enumerate(ENTRY_ORDER):
+            if bool(old.colors == depth):
+                chosen = a.attrspecs[k]
+                yield f"entry-for-the-active-depth-recorded/{depth}", s._pal_attrspec.d.get(a.name) is chosen
+                yield f"and-its-escape-sequence-stored/{depth}", s._pal_escape.d.get(a.name) == ("escape-of", chosen)
+        yield "only-this-name-touched", both(set(s._pal_attrspec.d) == {a.name}, set(s._pal_escape.d) == {a.name})
+        yield "depth-unchanged", s.colors == old.colors
